@@ -273,12 +273,12 @@ class World:
         if c is None or c not in pend:
             self.ev("skipped", what="resolve")
             return
-        self.net.resolve_c(c, op["how"])
+        self.net.resolve_c(c, op["how"], op.get("exc"), op.get("pause_in", 0))
 
     def op_resolve_all(self, op):
         pend = self.net.pending()
         for c in pend:
-            self.net.resolve_c(c, op["how"])
+            self.net.resolve_c(c, op["how"], op.get("exc"))
         self.ev("resolved_all", n=len(pend), how=op["how"])
 
     def _tr(self, op):
@@ -305,23 +305,28 @@ class World:
         if tr is None or tr.lost:
             self.ev("skipped", what="peer_reset")
             return
-        self.ev("peer_reset", c=tr.c)
-        tr.peer_reset()
+        self.ev("peer_reset", c=tr.c, exc=op.get("exc") or "reset")
+        tr.peer_reset(op.get("exc"))
 
     def op_pause(self, op):
         tr = self._tr(op)
         if tr is None or tr.lost:
             self.ev("skipped", what="pause")
             return
-        self.ev("paused", c=tr.c)
         tr.pause()
+
+    def op_arm_pause(self, op):
+        tr = self._tr(op)
+        if tr is None or tr.lost or getattr(tr, "paused", False):
+            self.ev("skipped", what="arm_pause")
+            return
+        tr.pause_in = op.get("nth", 1)
 
     def op_resume(self, op):
         tr = self._tr(op)
         if tr is None or tr.lost:
             self.ev("skipped", what="resume")
             return
-        self.ev("resumed", c=tr.c)
         tr.resume()
 
     def op_arm_fault(self, op):
@@ -330,6 +335,7 @@ class World:
             self.ev("skipped", what="arm_fault")
             return
         tr.fault_in = op.get("nth", 1)
+        tr.fault_exc = op.get("exc")
         self.ev("fault_armed", c=tr.c, nth=tr.fault_in)
 
     def op_sub(self, op):
